@@ -216,7 +216,11 @@ class Register:
         if step < 1:
             raise JaqalError("Invalid slice step.")
 
-        return len(range(start, stop, step))
+        try:
+            return len(range(start, stop, step))
+        except OverflowError:
+            # len() is limited to the machine word; the bounds are not
+            return max(0, -((start - stop) // step))
 
     def resolve_qubit(self, idx, context=None):
         """
